@@ -72,7 +72,7 @@ def structural_cells(tier: str, seed: int):
     n = 0
     for si, (tag, blocks) in enumerate(LY.STRUCTS):
         for ltag, levels, dl in LY.level_settings(blocks, [], tier):
-            for cls in _cls_opts(ltag, quick, extra=(["nearpure"] if ltag == "M" else [])) + (["nearpure", "basis"] if ltag == "M" else ["basis"] if ltag == "V" else []):
+            for cls in _cls_opts(ltag, quick, extra=(["nearpure"] if ltag == "M" else [])) + (["nearpure", "basis", "nearbasis"] if ltag == "M" else ["basis", "nearbasis"] if ltag == "V" else []):
                 actions = []
                 for k in (1, 2, 3, 4):
                     for combo in itertools.permutations(ALL5, k):
@@ -98,6 +98,20 @@ def structural_cells(tier: str, seed: int):
                         cells.append(_cell(spec, tag, ltag, cls, contraction, seed,
                                            {"kind": "structural", "what": what, "entry": entry, "targets": [LY.rename(spec, t) for t in tg]},
                                            variant=what, reordered=True))
+    # stale level cache (reachable after combine -> absorbed by a composite product space -> non-destructive measurement)
+    for stale in ("V", "M"):
+        for lv, cls in (("L", "basis"), ("V", "pure"), ("M", "mixed")):
+            for composite in (True,):     # a stand-alone envelope resets its cache in Envelope.measure: the stale cache is reachable only inside a composite envelope
+                spec = LY.make_spec([], {}, {}, envs=("e0", "e1") if composite else ("e0",), customs=("c0",) if composite else (), composite=composite,
+                                    default_level=lv, default_cls=cls)
+                spec["stale_level_cache"] = stale
+                for what, entry, tg in (("combine", "env", ["e0.f"]), ("expand", "env", ["e0.f"]), ("reorder", "env", ["e0.p", "e0.f"])):
+                    cells.append(_cell(spec, "own+stale-cache" if composite else "alone+stale-cache", lv, cls, True, seed,
+                                       {"kind": "structural", "what": what, "entry": entry, "targets": [LY.rename(spec, t) for t in tg]}, variant=what + "-stale" + stale))
+                if composite:
+                    for tg in (["e0.f", "e1.p"], ["e0.p", "e0.f", "c0"]):
+                        cells.append(_cell(spec, "own+stale-cache", lv, cls, True, seed,
+                                           {"kind": "structural", "what": "combine", "entry": "ce", "targets": [LY.rename(spec, t) for t in tg]}, variant="cecombine-stale" + stale))
     # envelope-level contract needs a combined matrix-level envelope
     for order, tag in ((["e0.f", "e0.p"], "envalone01"), (["e0.p", "e0.f"], "envalone10")):
         for cls in ("mixed", "pure", "nearpure", "degenerate", "basis"):
@@ -109,7 +123,7 @@ def structural_cells(tier: str, seed: int):
             for what, tg in (("expand", ["e0.f"]), ("reorder", ["e0.p", "e0.f"]), ("reorder", ["e0.f", "e0.p"]), ("reorder", ["e0.p"])):
                 cells.append(_cell(spec, tag, "V", cls, True, seed, {"kind": "structural", "what": what, "entry": "env", "targets": tg}, variant=what))
     # standalone subsystems: expand / contract at every level and state class (C08)
-    for lv, clss in (("L", ["basis"]), ("V", ["pure", "neg", "basis"]), ("M", ["mixed", "pure", "nearpure", "degenerate", "basis"])):
+    for lv, clss in (("L", ["basis"]), ("V", ["pure", "neg", "basis", "nearbasis"]), ("M", ["mixed", "pure", "nearpure", "degenerate", "basis", "nearbasis"])):
         for cls in clss:
             for tgt, envs, customs in (("e0.f", ("e0",), ()), ("e0.p", ("e0",), ()), ("c0", (), ("c0",))):
                 spec = LY.make_spec([], {}, {}, envs=envs, customs=customs, composite=False, default_level=lv, default_cls=cls)
@@ -293,6 +307,36 @@ def kraus_cells(tier: str, seed: int):
     return cells
 
 
+def stale_cache_cells(tier: str, seed: int):
+    """Operations / channels / POVMs / measurements / partial traces on an UNCOMBINED envelope that still carries a cached level."""
+    cells = []
+    for stale in ("V", "M"):
+        for lv, cls in (("L", "basis"), ("V", "pure"), ("M", "mixed")):
+            for composite in (True,):
+                spec = LY.make_spec([], {}, {}, envs=("e0", "e1") if composite else ("e0",), customs=("c0",) if composite else (), composite=composite,
+                                    default_level=lv, default_cls=cls, fock_dims={"e0": 2, "e1": 3})
+                spec["stale_level_cache"] = stale
+                tag = ("own" if composite else "alone") + "+stale-cache"
+                R = lambda m: LY.rename(spec, m)
+                acts = [{"kind": "kraus", "entry": "env", "targets": [R("e0.f"), R("e0.p")], "ops": {"name": "random2", "seed": 5}},
+                        {"kind": "kraus", "entry": "env", "targets": [R("e0.p"), R("e0.f")], "ops": {"name": "dephasing", "seed": 5}},
+                        {"kind": "kraus", "entry": "env", "targets": [R("e0.p")], "ops": {"name": "amplitude_damping", "seed": 5}},
+                        {"kind": "povm", "entry": "env", "targets": [R("e0.f"), R("e0.p")], "ops": {"n": 2, "seed": 3, "projective": False}, "flags": {"destructive": False}},
+                        {"kind": "trace_out", "entry": "env", "targets": [R("e0.p"), R("e0.f")]},
+                        {"kind": "trace_out", "entry": "env", "targets": [R("e0.f")]},
+                        {"kind": "measure", "entry": "env", "targets": [R("e0.f")], "flags": {"destructive": False}},
+                        {"kind": "op", "entry": "env", "fam": "Polarization", "type": "H", "params": {}, "targets": [R("e0.p")]},
+                        {"kind": "op", "entry": "env", "fam": "Fock", "type": "Creation", "params": {}, "targets": [R("e0.f")]},
+                        {"kind": "resize", "entry": "env", "targets": [R("e0.f")], "new": "+1"}]
+                if composite:
+                    acts += [{"kind": "op", "entry": "ce", "fam": "Composite", "type": "CXPolarization", "params": {}, "targets": [R("e0.p"), R("e1.p")]},
+                             {"kind": "kraus", "entry": "ce", "targets": [R("e0.f"), R("e0.p")], "ops": {"name": "random2", "seed": 6}}]
+                for a in acts:
+                    cells.append(_cell(spec, tag, lv, cls, True, seed, a, variant=a["kind"] + "-stale" + stale, ntargets=len(a["targets"]),
+                                       flags=_flagtag(a.get("flags", {}))))
+    return cells
+
+
 def resize_cells(tier: str, seed: int):
     """C10: resize at the three entry points; state classes with support touching the top level ('pure',
     'mixed': population everywhere) and with an empty top level ('lowfock', 'mixedlow')."""
@@ -417,7 +461,11 @@ def invalid_cells(tier: str, seed: int):
                         continue
                     if what == "shrink-below-occupied-levels" and cls == "basis":
                         continue
-                    spec = LY.make_spec(blocks, levels, {}, default_level=dl, default_cls=cls, bystander=(n % 7 == 0))
+                    if what == "shrink-below-occupied-levels":
+                        cls_used = {"pure": "ghz", "mixed": "classical"}.get(cls, cls) if n % 2 else cls
+                    else:
+                        cls_used = cls
+                    spec = LY.make_spec(blocks, levels, {}, default_level=dl, default_cls=cls_used, bystander=(n % 7 == 0))
                     a = {"kind": "invalid", "what": what, "entry": entry, "targets": [LY.rename(spec, t) for t in tg],
                          "then": [dict(CONT[tg[0]], targets=[LY.rename(spec, tg[0])])] if tg[0] in CONT else [], **extra}
                     cells.append(_cell(spec, tag, ltag, cls, bool(n % 2), seed, a, variant=what, ntargets=len(tg),
@@ -443,4 +491,36 @@ def invalid_cells(tier: str, seed: int):
             a = {"kind": "invalid", "what": what, "entry": entry, "targets": [LY.rename(spec, t) for t in tg], "foreign": foreign,
                  "then": [{"kind": "op", "entry": "self", "fam": "Polarization", "type": "H", "params": {}, "targets": [LY.rename(spec, "e0.p")]}]}
             cells.append(_cell(spec, "ps:f0,p1+bystander", lv, cls, True, seed, a, variant=what, target_store="foreign"))
+    return cells
+
+
+S3 = [("ps", ["e0.p", "c0"]), ("ps", ["e1.p", "e1.f"]), ("ps", ["e2.f", "e2.p"])]
+
+
+def three_space_cells(tier: str, seed: int):
+    """One composite envelope holding THREE product spaces: actions addressing members of two of them must merge exactly
+    those two and leave the third (a bystander inside the same composite envelope) untouched (C20), with the right physics."""
+    cells = []
+    for lv, cls in (("V", "pure"), ("M", "mixed")):
+        spec = LY.make_spec(S3, {b[1][0]: lv for b in S3}, {}, envs=("e0", "e1", "e2"), default_level=lv, default_cls=cls,
+                            fock_dims={"e0": 2, "e1": 2, "e2": 2})
+        R = lambda m: LY.rename(spec, m)
+        acts = [{"kind": "kraus", "entry": "ce", "targets": [R("e0.p"), R("e1.p")], "ops": {"name": "random2", "seed": 4}},
+                {"kind": "kraus", "entry": "ce", "targets": [R("e1.f"), R("c0")], "ops": {"name": "dephasing", "seed": 4}},
+                {"kind": "kraus", "entry": "ce", "targets": [R("e0.p")], "ops": {"name": "amplitude_damping", "seed": 4}},
+                {"kind": "povm", "entry": "ce", "targets": [R("e1.p"), R("e0.p")], "ops": {"n": 2, "seed": 3, "projective": False}, "flags": {"destructive": False}},
+                {"kind": "povm", "entry": "ce", "targets": [R("e0.p"), R("e1.p")], "ops": {"n": 2, "seed": 5, "projective": True}, "flags": {}},
+                {"kind": "op", "entry": "ce", "fam": "Composite", "type": "CXPolarization", "params": {}, "targets": [R("e0.p"), R("e1.p")]},
+                {"kind": "op", "entry": "ce", "fam": "Composite", "type": "CZPolarization", "params": {}, "targets": [R("e2.p"), R("e0.p")]},
+                {"kind": "op", "entry": "self", "fam": "Polarization", "type": "H", "params": {}, "targets": [R("e1.p")]},
+                {"kind": "trace_out", "entry": "ce", "targets": [R("e1.p"), R("e0.p")]},
+                {"kind": "trace_out", "entry": "ce", "targets": [R("e2.f")]},
+                {"kind": "measure", "entry": "ce", "targets": [R("e0.p")], "flags": {"destructive": False, "separate_measurement": True}},
+                {"kind": "measure", "entry": "ce", "targets": [R("e0.p"), R("e1.p")], "flags": {}},
+                {"kind": "structural", "what": "combine", "entry": "ce", "targets": [R("e1.f"), R("e0.p")]},
+                {"kind": "structural", "what": "reorder", "entry": "ce", "targets": [R("e1.f"), R("e1.p")]},
+                {"kind": "resize", "entry": "ce", "targets": [R("e1.f")], "new": "+2"}]
+        for a in acts:
+            cells.append(_cell(spec, "3ps:p0,c0|p1,f1|f2,p2", lv, cls, True, seed, a, variant=a["kind"] + "-3ps", ntargets=len(a["targets"]),
+                               flags=_flagtag(a.get("flags", {})), reordered=True, target_store="ps"))
     return cells
